@@ -64,6 +64,12 @@ f('C06', 'reverse-periodic-flip-only', 'reverse() on a periodic direction only f
 f('C06', 'swap-curve-returns-none', 'swap() on a curve returns None instead of the receiver', False, {'call': 'Curve().swap()'})
 f('C06', 'reparam-tiny-interval-absolute-knot-tolerance', 'reparam to an interval of width <= ~1e-9 breaks evaluation: parameters are snapped with the absolute knot_tolerance 1e-10', False, {'call': 'Curve().reparam((0, 2**-34))'})
 
+f('C05', 'periodic-lower-order-nameerror', 'BSplineBasis.lower_order on a periodic basis raises NameError (knot_spans undefined); lower_order is therefore not a left inverse of raise_order on periodic objects', False, {'call': 'BSplineBasis(3,[-1,0,0,1,2,2,3],0).raise_order(1).lower_order(1)'})
+f('C05', 'curve-raise-order-zero-returns-none', 'Curve.raise_order(0) / set_order(same) returns None instead of the receiver', False, {'call': 'Curve().raise_order(0)'})
+f('C05', 'order1-direction-greville-zerodivision', 'raise_order on an object with an order-1 direction raises ZeroDivisionError (greville() divides by p-1 = 0 even for untouched directions)', False, {'call': 'Surface(BSplineBasis(1,[0,1]),BSplineBasis(2),[[[0.,0.],[1.,1.]]],raw=True).raise_order(0,1)'})
+f('C05', 'lower-order-to-constants-rejected', 'lower_order refuses to return to order 1: not a left inverse of raise_order on order-1 objects', False, {'call': 'Curve(BSplineBasis(1,[0,1]),[[1.,2.]]).raise_order(1).lower_order(1)'})
+f('C05', 'curve-dimension1-controlpoints-flattened', 'Curve.raise_order on a 1-D curve: spsolve returns a 1-D array, controlpoints lose their last axis (pardim becomes 0)', True, {'call': 'c=Curve(BSplineBasis(2),[[1.],[2.]]); c.raise_order(1); c.controlpoints.shape'})
+
 FIXED = []
 if __name__ == '__main__':
     p = os.path.join(os.path.dirname(os.path.dirname(os.path.abspath(__file__))), 'known_findings.json')
